@@ -121,6 +121,8 @@ pub struct RItem {
     pub vis_pub: bool,
     /// names of fns inside an impl
     pub fns: Vec<String>,
+    /// normalised tokens of the items inside an impl
+    pub body: String,
 }
 
 #[derive(Debug, Clone, Serialize, Default)]
@@ -432,6 +434,7 @@ fn conv_item(item: &Item, module: &mut RModule, loose: &mut Vec<RItem>, top: boo
                         _ => None,
                     })
                     .collect(),
+                body: i.items.iter().map(norm_tokens).collect::<Vec<_>>().join(" "),
                 ..Default::default()
             },
             module,
